@@ -14,4 +14,5 @@ def main : IO UInt32 :=
     | "c10" => C09.checkGrammar params lines
     | "c11" => C09.checkGrammar params lines
     | "c09x" => C09.checkShutdown params lines
+    | "c09relay" => C09.checkRelay params lines
     | _ => { bad := [s!"unknown family {family}"] })
